@@ -44,7 +44,7 @@ def cases(rng, tier, shard, nshards):
         yield dict(n=n, m=m, method=['central', 'forward', 'complex'][i % 3],
                    family=str(rng.choice(['affine', 'smooth'])), seed=int(rng.integers(0, 2 ** 31)),
                    step=None if rng.random() < 0.6 else float(10.0 ** rng.uniform(-7, -4)),
-                   bounds=str(rng.choice(['none', 'box', 'on_lower', 'on_upper', 'tight', 'scalar_zero_lower', 'scalar_zero_upper', 'scalar'])),
+                   bounds=str(rng.choice(['none', 'box', 'on_lower', 'on_upper', 'tight', 'scalar_zero_lower', 'scalar_zero_upper', 'scalar', 'near_face'])),
                    gradient=bool(rng.random() < 0.3), xshape=str(rng.choice(['vector', 'matrix', 'matrix', 'scalar'])))
 
 
@@ -206,6 +206,13 @@ def run_case(case, ctx):
             lb = x.copy()
         elif case['bounds'] == 'on_upper':
             ub = x.copy()
+        elif case['bounds'] == 'near_face':
+            # strictly inside, but within 1e-9 .. 1e-5 (relative) of a face in some coordinates: the point is the point given
+            gap = 10.0 ** rng.uniform(-9, -5.1, n) * (1.0 + np.abs(x))
+            side = rng.random(n) < 0.5
+            lb = np.where(side, x - gap, lb)
+            ub = np.where(~side, x + gap, ub)
+            ctx.count('points_close_to_a_face_of_the_box')
         kw['bounds'] = (lb, ub)
         ctx.count('bounds_active_cases')
     if gradient and case['xshape'] == 'matrix' and n % 2 == 0:
